@@ -800,6 +800,8 @@ inductive AzUrl where
   deriving Repr, DecidableEq
 
 structure HReq where
+  authed : Bool        -- the middleware in front (extractPayloadByKid) let the request through: signed by
+                       -- an existing, active account of this provisioner referenced by `kid`, with *its* key
   chExists : Bool      -- db.GetChallenge(chID) finds a challenge
   owner : Bool         -- acc.ID == ch.AccountID for the account that signed the request
   azUrl : AzUrl
@@ -833,7 +835,8 @@ def worldVia (azUrl : AzUrl) : World → World
 /-- `api.GetChallenge`: the account must own the challenge; the JWK handed to `Validate` is the
     requesting account's key (`ch.thumb` is its thumbprint); `ch.AuthorizationID` := URL parameter. -/
 def getChallenge (h : Hash) (cfg : Cfg) (dbOk : Bool) (ch : Ch) (w : World) (req : HReq) : M HOut :=
-  if !req.chExists then .val ⟨.notFound, untouched ch⟩
+  if !req.authed then .val ⟨.notFound, untouched ch⟩   -- refused by the middleware (a 4xx problem); the handler does not run
+  else if !req.chExists then .val ⟨.notFound, untouched ch⟩
   else if !req.owner then .val ⟨.unauthorized, untouched ch⟩
   else match validate h cfg dbOk ch (worldVia req.azUrl w) with
     | .done o => .val ⟨match o.ret with | .ok => .ok | .ise => .ise | .notFound => .notFound | .unauthorized => .unauthorized, o⟩
@@ -872,6 +875,53 @@ def newAuthorization (t : IdType) (raw : Str) : Str × Bool × List ChType :=
   -- since fix 77ebdfa only DNS identifiers have a wildcard form; every other type keeps its value as given
   let (v, w) := if t = .dns then trimIfWildcard raw else (raw, false)
   (v, w, challengeTypes t w)
+
+
+/-! ### provisioner configuration glue (authority/provisioner/acme.go, authority/provisioners.go)
+
+  Which challenge types and attestation formats a provisioner offers: `ACME.IsChallengeEnabled`,
+  `ACME.IsAttestationFormatEnabled`, the filter in `api.newAuthorization`, and the conversion the
+  configuration goes through when it is migrated into / served from the admin database
+  (`ProvisionerToLinkedca` ∘ `ProvisionerToCertificates`: `challengesToLinkedca`,
+  `challengesToCertificates`, `attestationFormatsTo…`, `provisionerPEMTo…`). -/
+
+/-- canonical (lower-case) name of a challenge type -/
+def ChType.name : ChType → Str
+  | .http01 => s "http-01" | .dns01 => s "dns-01" | .tlsalpn01 => s "tls-alpn-01"
+  | .deviceAttest01 => s "device-attest-01" | .wireOidc01 => s "wire-oidc-01" | .wireDpop01 => s "wire-dpop-01"
+  | .unknown => s "unknown"
+
+structure ProvCfg where
+  challenges : List Str    -- `challenges` as configured (any letter case; `Init` accepts the six names)
+  formats : List Str       -- `attestationFormats` as configured
+  roots : Nat              -- number of certificates in `attestationRoots`
+  deriving Repr, DecidableEq
+
+/-- the linkedca enumeration has exactly these challenge types / attestation formats -/
+def linkedcaChallenges : List Str := [s "http-01", s "dns-01", s "tls-alpn-01", s "device-attest-01"]
+def linkedcaFormats : List Str := [s "apple", s "step", s "tpm"]
+
+/-- configuration → admin database → configuration: names are lower-cased (`String()`), names the
+    linkedca enumeration does not have are *skipped*, PEM blocks are kept -/
+def migrate (p : ProvCfg) : ProvCfg :=
+  { challenges := (p.challenges.map lower).filter (linkedcaChallenges.contains ·),
+    formats := (p.formats.map lower).filter (linkedcaFormats.contains ·),
+    roots := p.roots }
+
+/-- `ACME.IsChallengeEnabled`: an empty list means http-01, dns-01, tls-alpn-01 -/
+def isChallengeEnabled (p : ProvCfg) (c : ChType) : Bool :=
+  let l := if p.challenges = [] then [s "http-01", s "dns-01", s "tls-alpn-01"] else p.challenges
+  l.any (fun n => foldEq n c.name)
+
+/-- `ACME.IsAttestationFormatEnabled`: an empty list means apple, step, tpm -/
+def isFormatEnabled (p : ProvCfg) (f : Str) : Bool :=
+  let l := if p.formats = [] then linkedcaFormats else p.formats
+  l.any (fun n => foldEq n f)
+
+/-- `api.newAuthorization` with the provisioner's filter: the challenges actually created -/
+def offered (p : ProvCfg) (t : IdType) (raw : Str) : Str × Bool × List ChType :=
+  let (v, w, tys) := newAuthorization t raw
+  (v, w, tys.filter (isChallengeEnabled p))
 
 /-! ### facts about the source text, re-derived with go/ast on every run (stage `src`)
 
@@ -918,6 +968,55 @@ def types : List (String × List String × Option (String × List String)) :=
 /-- `api.GetChallenge`: top-level order and data flow -/
 def handlerOrder : String :=
   "ownership-then-validate;validate(ctx+db+jwk+payload.value);jwk=jwkFromContext();jwk-assignments=1;ch=db.GetChallenge;ch.AuthorizationID=azID;azID=chi.URLParam:authzID"
+
+/-- acme/client.go: the validation client used when the context carries none (ca.go installs
+    `acme.NewClient()`): a plain `http.Client` (30 s, environment proxy, no redirect policy of its
+    own, certificate verification off for https redirects), `net.LookupTXT`, `tls.DialWithDialer` -/
+def clientShape : String :=
+  "NewClient:http{,Timeout=30*time.Second,Transport{,Proxy=http.ProxyFromEnvironment,TLSClientConfig{,InsecureSkipVerify=true,dialer{,Timeout=30*time.Second;client.Get=c.http.Get(url);client.LookupTxt=net.LookupTXT(name);client.TLSDial=tls.DialWithDialer(c.dialer,network,addr,config);MustClientFromContext=NewClient()|c"
+
+/-- the route of the challenge URL and of the authorization URL, with the middleware compositions -/
+def routeMiddleware : String :=
+  ";extractPayloadByKid=validatingMiddleware(lookupJWK(verifyAndExtractJWSPayload(next)));extractPayloadByJWK=validatingMiddleware(extractJWK(verifyAndExtractJWSPayload(next)));extractPayloadByKidOrJWK=validatingMiddleware(extractOrLookupJWK(verifyAndExtractJWSPayload(next)));validatingMiddleware=commonMiddleware(addNonce(addDirLink(verifyContentType(parseJWS(validateJWS(next))))))"
+def routeChallenge : String :=
+  "POST getPath(acme.ChallengeLinkType,\"{provisionerID}\",\"{authzID}\",\"{chID}\") extractPayloadByKid(GetChallenge)" ++ routeMiddleware
+def routeAuthz : String :=
+  "POST getPath(acme.AuthzLinkType,\"{provisionerID}\",\"{authzID}\") extractPayloadByKid(isPostAsGet(GetAuthorization))" ++ routeMiddleware
+
+/-- string constants: provisioner.ACMEChallenge, provisioner.ACMEAttestationFormat, acme.ChallengeType -/
+def constProvChallenges : List (String × String) :=
+  [("HTTP_01", "http-01"), ("DNS_01", "dns-01"), ("TLS_ALPN_01", "tls-alpn-01"), ("DEVICE_ATTEST_01", "device-attest-01"),
+   ("WIREOIDC_01", "wire-oidc-01"), ("WIREDPOP_01", "wire-dpop-01")]
+def constProvFormats : List (String × String) := [("APPLE", "apple"), ("STEP", "step"), ("TPM", "tpm")]
+def constAcmeChallenges : List (String × String) :=
+  [("HTTP01", "http-01"), ("DNS01", "dns-01"), ("TLSALPN01", "tls-alpn-01"), ("DEVICEATTEST01", "device-attest-01"),
+   ("WIREOIDC01", "wire-oidc-01"), ("WIREDPOP01", "wire-dpop-01")]
+
+/-- the conversion switches of authority/provisioners.go: (what is switched on, case ↦ appended value) -/
+def convChallengesToLinkedca : String × List (String × String) :=
+  ("provisioner.ACMEChallenge(ch.String())",
+   [("provisioner.HTTP_01", "linkedca.ACMEProvisioner_HTTP_01"), ("provisioner.DNS_01", "linkedca.ACMEProvisioner_DNS_01"),
+    ("provisioner.TLS_ALPN_01", "linkedca.ACMEProvisioner_TLS_ALPN_01"),
+    ("provisioner.DEVICE_ATTEST_01", "linkedca.ACMEProvisioner_DEVICE_ATTEST_01")])
+def convChallengesToCertificates : String × List (String × String) :=
+  ("ch",
+   [("linkedca.ACMEProvisioner_HTTP_01", "provisioner.HTTP_01"), ("linkedca.ACMEProvisioner_DNS_01", "provisioner.DNS_01"),
+    ("linkedca.ACMEProvisioner_TLS_ALPN_01", "provisioner.TLS_ALPN_01"),
+    ("linkedca.ACMEProvisioner_DEVICE_ATTEST_01", "provisioner.DEVICE_ATTEST_01")])
+def convFormatsToLinkedca : String × List (String × String) :=
+  ("provisioner.ACMEAttestationFormat(f.String())",
+   [("provisioner.APPLE", "linkedca.ACMEProvisioner_APPLE"), ("provisioner.STEP", "linkedca.ACMEProvisioner_STEP"),
+    ("provisioner.TPM", "linkedca.ACMEProvisioner_TPM")])
+def convFormatsToCertificates : String × List (String × String) :=
+  ("f",
+   [("linkedca.ACMEProvisioner_APPLE", "provisioner.APPLE"), ("linkedca.ACMEProvisioner_STEP", "provisioner.STEP"),
+    ("linkedca.ACMEProvisioner_TPM", "provisioner.TPM")])
+
+/-- `IsChallengeEnabled` / `IsAttestationFormatEnabled`: default list, when it is overridden, how names are compared -/
+def enabledChallenges : List String × String × String :=
+  (["HTTP_01", "DNS_01", "TLS_ALPN_01"], "len(p.Challenges)>0", "strings.EqualFold(string(ch),string(challenge))")
+def enabledFormats : List String × String × String :=
+  (["APPLE", "STEP", "TPM"], "len(p.AttestationFormats)>0", "strings.EqualFold(string(f),string(format))")
 
 end Src
 
